@@ -85,12 +85,27 @@ def run_one(cfg, ctx, fp=True):
     loop.settle(0)
     ctx.fp = None
     extra = {}
+    if cfg.get('second_round') and st != 'hang':
+        # the object lives on: the same callers overlap again in the next asyncio.run() (all answers conforming)
+        first = dict(res)
+        res.clear()
+        peer.ctx = None
+        peer.default_letter = 'valid'
+        offs = [0.0] * N
+        loop.shutdown_like_asyncio_run()
+        loop = KLoop(kern=loop.kern)
+        st2, r2 = loop.run(main())
+        loop.settle(0)
+        extra['second_round'] = dict(res) if st2 != 'hang' else {'hang': str(r2)}
+        res.clear()
+        res.update(first)
+        peer.ctx = ctx
     if cfg.get('peer_cls'):
         # (C10's overlapping-callers stage: transports and sockets during and after the calls, then close())
         import gc
         opened = lambda: sum(1 for t in loop.kern.transports if not t.is_closing())   # noqa: E731
         gc.collect(1)
-        extra = dict(watch=list(peer.watch), open_end=opened(), leaked=len(loop.kern.socks) - opened())
+        extra.update(watch=list(peer.watch), open_end=opened(), leaked=len(loop.kern.socks) - opened())
 
         async def closing():
             try:
